@@ -9,6 +9,7 @@ import (
 
 	"github.com/philpearl/avro"
 
+	"verifh/cat"
 	"verifh/iso"
 	"verifh/ref"
 	"verifh/spec"
@@ -334,6 +335,8 @@ func c05Schemas() []ref.Schema {
 		ref.Prim("null"), ref.Prim("boolean"), ref.Prim("int"), ref.Prim("long"), ref.Prim("float"), ref.Prim("double"), ref.Prim("bytes"), ref.Prim("string"),
 		{Kind: "record", Name: "Inner", Fields: []ref.Field{{Name: "A", Type: long}}},
 		{Kind: "enum", Name: "E", Symbols: []string{"A", "B"}},
+		// fields named like the inner fields of an embedded struct (see the catalogue's EmbedMid / EmbedPtr)
+		{Kind: "record", Name: "Outer", Fields: []ref.Field{{Name: "x", Type: long}, {Name: "a", Type: long}, {Name: "y", Type: str}, {Name: "b", Type: ref.Nullable(str)}}},
 		{Kind: "array", Items: &long},
 		{Kind: "array", Items: &str},
 		{Kind: "map", Values: &long},
@@ -372,6 +375,8 @@ func c05GoTypes() []spec.TypeSpec {
 		spec.Struct(spec.FieldSpec{Go: "A", T: i64}),
 		spec.Struct(spec.FieldSpec{Go: "A", T: i16}, spec.FieldSpec{Go: "B", T: i16}),
 		spec.Ptr(i64),
+		// named types with an embedded struct, by value and by pointer
+		cat.Get("EmbedMid").Spec, cat.Get("EmbedPtr").Spec,
 	)
 	return out
 }
@@ -428,8 +433,20 @@ func c05Datums(x ref.Schema, rot int) []ref.Datum {
 		z := make([]byte, x.Size)
 		out = []ref.Datum{{K: "fixed", S: b}, {K: "fixed", S: z}}
 	case "record":
-		for _, d := range c05Datums(x.Fields[0].Type, rot) {
-			out = append(out, ref.Datum{K: "record", Fields: []ref.Datum{d}})
+		per := make([][]ref.Datum, len(x.Fields))
+		n := 0
+		for i, f := range x.Fields {
+			per[i] = c05Datums(f.Type, rot+i)
+			if len(per[i]) > n {
+				n = len(per[i])
+			}
+		}
+		for j := 0; j < n; j++ {
+			d := ref.Datum{K: "record"}
+			for i := range x.Fields {
+				d.Fields = append(d.Fields, per[i][(j+i)%len(per[i])])
+			}
+			out = append(out, d)
 		}
 	case "array":
 		its := c05Datums(*x.Items, rot)
